@@ -41,6 +41,14 @@ type Stats struct {
 	// influences this case's execution order or bytes ("" = none): such a case is
 	// compared only on its order-free parts by the determinism self-test.
 	MapDep string
+	Probes map[string]int64
+}
+
+func (s *Stats) probe(k string) {
+	if s.Probes == nil {
+		s.Probes = map[string]int64{}
+	}
+	s.Probes[k]++
 }
 
 func (s *Stats) shape(k string) {
